@@ -183,6 +183,16 @@ def judge (T : Tables) (stream : Bytes) (outs : List Bytes) : Verdict :=
     | some (k, true) => if k < reqs.length then .misfit k else .count reqs.length (k + 1)
     | some (k, false) => .count reqs.length k
 
+/-- the module part of a specifier `module[:accessible]` -/
+def moduleOf (spec : Bytes) : Bytes := spec.takeWhile (· != 58)
+
+/-- nothing of another connection's traffic: every event line (`update`, `error_update`, `log`) a
+connection received concerns a module it subscribed to.  `none` = fine, `some i` = offending line. -/
+def judgeEvents (T : Tables) (subscribed : List Bytes) (outs : List Bytes) : Option Nat :=
+  outs.findIdx? (fun o =>
+    let p := outParts o
+    isAsyncAction T p.action && p.action != T.helpLineAction && !(subscribed.contains (moduleOf p.spec)))
+
 /-- `judge`, then the two implementation-side tests: per emitted line (valid UTF-8, data part strict JSON) -/
 def judgeAll (T : Tables) (stream : Bytes) (outs : List Bytes) (flags : List (Bool × Bool)) : Verdict :=
   match judge T stream outs with
